@@ -2,9 +2,16 @@
 
 package main
 
-// manyinlined_cmd.go — C03/C07: one slab holding more inlined containers than the one-byte
-// extra-data index can address (large slab sizes only).  The library must either refuse to encode
-// (commit returns an encoding error and writes nothing) or write a register that reloads exactly.
+// manyinlined_cmd.go — C02/C03/C07: one slab holding as many inlined containers as the one-byte
+// extra-data index can address, one fewer, one more (large slab sizes only: 254, 255, 256, 257, 258
+// and 200..330 inlined containers in one slab).  Parents are arrays AND maps; children are maps
+// (map extra data is never shared: one extra-data entry each), composite-typed maps (one compact-map
+// entry each), arrays with pairwise different type infos (one entry each) or a mixture, flat or on
+// two levels (inlined grandchildren use the same slab-wide table), optionally with plain values in
+// between.  The library must either refuse to encode (commit returns an encoding error and writes
+// nothing; never with at most 256 inlined containers in the slab) or write a register from which a
+// brand-new storage reloads the parent with every child and every entry (count, every lookup,
+// membership of absent keys, types).
 
 import (
 	"fmt"
@@ -15,32 +22,239 @@ import (
 
 func init() { register("manyinlined", cmdManyInlined) }
 
+// miNode is the shadow of one inlined container.
+type miNode struct {
+	isMap   bool
+	compact bool        // composite-typed map with a field name of its own (leaf only)
+	tiv     uint64      // simple type info value (not compact)
+	key     atree.Value // map: the entry key -> val
+	val     uint64      // map: value of the entry; array: element 0
+	kids    []*miNode   // nested inlined containers: array elements 1.., map keys 5000+j
+}
+
+func (n *miNode) containers() int {
+	c := 1
+	for _, k := range n.kids {
+		c += k.containers()
+	}
+	return c
+}
+
+func miTypeInfo(n *miNode) atree.TypeInfo {
+	if n.compact {
+		return codecCompositeTI{1}
+	}
+	return testutils.NewSimpleTypeInfo(n.tiv)
+}
+
+func miBuild(st atree.SlabStorage, addr atree.Address, n *miNode) atree.Value {
+	if n.isMap {
+		m, err := atree.NewMap(st, addr, atree.NewDefaultDigesterBuilder(), miTypeInfo(n))
+		must(err)
+		_, err = m.Set(testutils.CompareValue, testutils.GetHashInput, n.key, testutils.Uint64Value(n.val))
+		must(err)
+		for j, k := range n.kids {
+			_, err = m.Set(testutils.CompareValue, testutils.GetHashInput, testutils.Uint64Value(uint64(5000+j)), miBuild(st, addr, k))
+			must(err)
+		}
+		return m
+	}
+	a, err := atree.NewArray(st, addr, miTypeInfo(n))
+	must(err)
+	must(a.Append(testutils.Uint64Value(n.val)))
+	for _, k := range n.kids {
+		must(a.Append(miBuild(st, addr, k)))
+	}
+	return a
+}
+
+// miCheck compares a reloaded value with its shadow; returns "" or the first difference.
+func miCheck(v atree.Value, n *miNode) string {
+	if n.isMap {
+		m, ok := v.(*atree.OrderedMap)
+		if !ok {
+			return fmt.Sprintf("reloaded child is %T, not a map", v)
+		}
+		if m.Count() != uint64(1+len(n.kids)) {
+			return fmt.Sprintf("child map has %d entries, want %d", m.Count(), 1+len(n.kids))
+		}
+		got, err := m.Get(testutils.CompareValue, testutils.GetHashInput, n.key)
+		if err != nil {
+			return fmt.Sprintf("entry of an inlined child map is lost (its extra-data index was written wrongly): %v", err)
+		}
+		if x, ok := got.(testutils.Uint64Value); !ok || uint64(x) != n.val {
+			return fmt.Sprintf("entry of an inlined child map changed: %v, want %d", got, n.val)
+		}
+		if has, err := m.Has(testutils.CompareValue, testutils.GetHashInput, testutils.Uint64Value(4999)); err != nil || has {
+			return fmt.Sprintf("absent key of an inlined child map: has=%v err=%v", has, err)
+		}
+		if !n.compact {
+			if tiv, ok := m.Type().(testutils.SimpleTypeInfo); !ok || tiv.Value() != n.tiv {
+				return fmt.Sprintf("type of an inlined child map changed: %v, want %d", m.Type(), n.tiv)
+			}
+		} else if !m.Type().IsComposite() {
+			return fmt.Sprintf("type of an inlined composite child map changed: %v", m.Type())
+		}
+		for j, k := range n.kids {
+			g, err := m.Get(testutils.CompareValue, testutils.GetHashInput, testutils.Uint64Value(uint64(5000+j)))
+			if err != nil {
+				return fmt.Sprintf("nested container %d of an inlined child map is lost: %v", j, err)
+			}
+			if d := miCheck(g, k); d != "" {
+				return d
+			}
+		}
+		return ""
+	}
+	a, ok := v.(*atree.Array)
+	if !ok {
+		return fmt.Sprintf("reloaded child is %T, not an array", v)
+	}
+	if a.Count() != uint64(1+len(n.kids)) {
+		return fmt.Sprintf("child array has %d elements, want %d", a.Count(), 1+len(n.kids))
+	}
+	got, err := a.Get(0)
+	if err != nil {
+		return fmt.Sprintf("element of an inlined child array is lost: %v", err)
+	}
+	if x, ok := got.(testutils.Uint64Value); !ok || uint64(x) != n.val {
+		return fmt.Sprintf("element of an inlined child array changed: %v, want %d", got, n.val)
+	}
+	if tiv, ok := a.Type().(testutils.SimpleTypeInfo); !ok || tiv.Value() != n.tiv {
+		return fmt.Sprintf("type of an inlined child array changed (extra data is looked up by index): %v, want %d", a.Type(), n.tiv)
+	}
+	for j, k := range n.kids {
+		g, err := a.Get(uint64(1 + j))
+		if err != nil {
+			return fmt.Sprintf("nested container %d of an inlined child array is lost: %v", j, err)
+		}
+		if d := miCheck(g, k); d != "" {
+			return d
+		}
+	}
+	return ""
+}
+
+// miCase is one generated parent.
+type miCase struct {
+	T         uint32
+	k         int  // inlined containers in the parent (all levels)
+	mapParent bool // parent is a map (keys 0..), else an array
+	childKind int  // 0 maps, 1 composite maps, 2 arrays with distinct type infos, 3 mixture of maps and arrays
+	per       int  // grandchildren per child (0 = flat)
+	filler    int  // a plain value after every filler-th container (0 = none)
+}
+
+func (c miCase) String() string {
+	p := "array"
+	if c.mapParent {
+		p = "map"
+	}
+	return fmt.Sprintf("T=%d parent=%s inlined-containers=%d children=%s grandchildren-per-child=%d filler-every=%d", c.T, p, c.k,
+		[]string{"maps", "composite-maps", "arrays", "maps+arrays"}[c.childKind], c.per, c.filler)
+}
+
+// the first cases are fixed (the boundary for every parent kind comes first), the rest is random
+var miFixed = []miCase{
+	{16384, 256, true, 0, 0, 0},
+	{16384, 256, false, 0, 0, 0},
+	{32768, 255, true, 0, 0, 0},
+	{16384, 257, true, 0, 0, 0},
+	{32768, 255, false, 1, 0, 0},
+	{16384, 257, false, 0, 0, 0},
+	{16384, 256, false, 0, 1, 0},
+	{32768, 256, true, 2, 0, 3},
+	{16384, 254, false, 3, 0, 0},
+	{16384, 254, true, 0, 2, 0},
+	{32768, 258, true, 3, 0, 5},
+	{32768, 300, false, 1, 0, 0},
+	{16384, 256, true, 1, 0, 0},
+	{32768, 256, false, 2, 0, 4},
+	{16384, 255, true, 3, 1, 0},
+	{16384, 257, false, 2, 0, 0},
+}
+
+func miGen(h int, rng *Rng) miCase {
+	if h < len(miFixed) {
+		return miFixed[h]
+	}
+	c := miCase{T: []uint32{16384, 32768}[rng.Intn(2)]}
+	if rng.Chance(60) {
+		c.k = 254 + rng.Intn(5)
+	} else {
+		c.k = 200 + rng.Intn(131)
+	}
+	c.mapParent = rng.Bool()
+	c.childKind = rng.Pick(35, 20, 20, 25)
+	if c.childKind != 1 && rng.Chance(35) {
+		c.per = 1 + rng.Intn(3)
+	}
+	if rng.Chance(30) {
+		c.filler = 2 + rng.Intn(6)
+	}
+	return c
+}
+
+// miChildren builds the shadows: exactly c.k containers over all levels, every one with an
+// extra-data entry of its own (maps always; arrays through pairwise different type infos).
+func miChildren(c miCase) []*miNode {
+	ctr := 0
+	leaf := func(kind int) *miNode {
+		i := ctr
+		ctr++
+		n := &miNode{val: uint64(10000 + i)}
+		switch {
+		case kind == 1:
+			n.isMap, n.compact, n.key = true, true, testutils.NewStringValue(fmt.Sprintf("f%d", i))
+		case kind == 0 || (kind == 3 && i%2 == 0):
+			n.isMap, n.tiv, n.key = true, uint64(50+i%3), testutils.Uint64Value(uint64(i))
+		default:
+			n.tiv = uint64(1000 + i) // arrays share an extra-data entry when their type infos are equal
+		}
+		return n
+	}
+	var out []*miNode
+	for ctr < c.k {
+		n := leaf(c.childKind)
+		for g := 0; g < c.per && ctr < c.k; g++ {
+			n.kids = append(n.kids, leaf(c.childKind))
+		}
+		out = append(out, n)
+	}
+	return out
+}
+
 func cmdManyInlined(a Args) {
 	rep := NewReport(a.Prop, a.Seed)
-	rep.Rule = "slab size 16384 or 32768; a parent array or map with 200..330 tiny inlined child maps (map extra data is never shared, so every child takes its own extra-data index) — counts around 255/256/257 are always included; commit; if the commit is refused it must be an encoding error and the ledger must be unchanged; if it succeeds a fresh storage must reload every child with its own entries. non-trivial = more than 256 inlined children in one slab"
+	rep.Rule = "slab size 16384 or 32768; a parent ARRAY or MAP holding 254, 255, 256 (the legal maximum of the one-byte extra-data index), 257, 258 or 200..330 inlined containers in one slab: " +
+		"tiny child maps (map extra data is never shared, so every child takes its own extra-data index), composite-typed child maps (one compact-map entry each), child arrays with pairwise " +
+		"different type infos, mixtures, flat or with 1..3 inlined grandchildren per child (same slab-wide table), optionally plain values in between; the first 16 cases are fixed " +
+		"(256/255/257/254 for both parent kinds first), the rest random; commit; if the commit is refused it must be an encoding error, the ledger must be unchanged and the slab must hold more than 256 " +
+		"inlined containers; if it succeeds a brand-new storage over the ledger bytes must reload the parent: count, every child by index / key with its own entries, types and nested containers, " +
+		"absent keys. non-trivial = at least 255 inlined containers in a single slab"
 	rng := NewRng(a.Seed)
 	defer atree.VerifSetThreshold(1024)
 	n := a.N
 	if n <= 0 {
-		n = 12
+		n = 16
 	}
-	counts := []int{255, 256, 257, 258, 300}
 	for h := 0; h < n; h++ {
 		hr := rng.Fork(uint64(h))
 		tag := fmt.Sprintf("m%d", h)
 		if !want(tag) {
 			continue
 		}
-		T := []uint32{16384, 32768}[hr.Intn(2)]
-		atree.VerifSetThreshold(T)
-		k := counts[h%len(counts)]
-		if h >= 2*len(counts) {
-			k = 200 + hr.Intn(131)
+		c := miGen(h, hr)
+		atree.VerifSetThreshold(c.T)
+		// property of the dictionary / durability oracles: a map parent is C02's subject
+		pid := "C03"
+		if c.mapParent {
+			pid = "C02"
 		}
 		failed := false
 		fail := func(what, detail string) {
 			if !failed {
-				rep.Violate(h, tag, 0, what, fmt.Sprintf("T=%d children=%d %s", T, k, detail))
+				rep.Violate(h, tag, 0, what, fmt.Sprintf("%s %s", c, detail))
 			}
 			failed = true
 		}
@@ -51,41 +265,69 @@ func cmdManyInlined(a Args) {
 				}
 			}()
 			base := NewLogBase()
-			compact := h%2 == 1 // composite-typed children with pairwise different field names: one compact-map entry each
-			st := newStorage(base)
-			if compact {
-				st = codecStorage(base)
-			}
-			addr := mkAddr(2)
-			parent, err := atree.NewArray(st, addr, testutils.NewSimpleTypeInfo(40))
-			must(err)
-			for i := 0; i < k; i++ {
-				var cti atree.TypeInfo = testutils.NewSimpleTypeInfo(uint64(50 + i%3))
-				var key atree.Value = testutils.Uint64Value(uint64(i))
+			compact := c.childKind == 1
+			mk := func(b atree.BaseStorage) *atree.PersistentSlabStorage {
 				if compact {
-					cti = codecCompositeTI{1}
-					key = testutils.NewStringValue(fmt.Sprintf("f%d", i))
+					return codecStorage(b)
 				}
-				m, err := atree.NewMap(st, addr, atree.NewDefaultDigesterBuilder(), cti)
-				must(err)
-				_, err = m.Set(testutils.CompareValue, testutils.GetHashInput, key, testutils.Uint64Value(uint64(10000+i)))
-				must(err)
-				must(parent.Append(m))
+				return newStorage(b)
 			}
-			if !parent.IsWithinSingleSlab() {
+			st := mk(base)
+			addr := mkAddr(2)
+			kids := miChildren(c)
+			var parentArr *atree.Array
+			var parentMap *atree.OrderedMap
+			var err error
+			if c.mapParent {
+				parentMap, err = atree.NewMap(st, addr, atree.NewDefaultDigesterBuilder(), testutils.NewSimpleTypeInfo(40))
+			} else {
+				parentArr, err = atree.NewArray(st, addr, testutils.NewSimpleTypeInfo(40))
+			}
+			must(err)
+			// slots of the parent: container i of kids, or a plain value
+			type slot struct {
+				kid   *miNode
+				plain uint64
+			}
+			var slots []slot
+			for i, kd := range kids {
+				slots = append(slots, slot{kid: kd})
+				if c.filler > 0 && i%c.filler == c.filler-1 {
+					slots = append(slots, slot{plain: uint64(70000 + i)})
+				}
+			}
+			for i, s := range slots {
+				var v atree.Value = testutils.Uint64Value(s.plain)
+				if s.kid != nil {
+					v = miBuild(st, addr, s.kid)
+				}
+				if c.mapParent {
+					_, err = parentMap.Set(testutils.CompareValue, testutils.GetHashInput, testutils.Uint64Value(uint64(i)), v)
+					must(err)
+				} else {
+					must(parentArr.Append(v))
+				}
+			}
+			var rootID atree.SlabID
+			single := false
+			if c.mapParent {
+				rootID, single = parentMap.SlabID(), parentMap.IsWithinSingleSlab()
+			} else {
+				rootID, single = parentArr.SlabID(), parentArr.IsWithinSingleSlab()
+			}
+			if !single {
 				rep.Event("parent_split_into_several_slabs")
-			} else if k > 256 {
-				rep.Distinct(tag)
+			} else if c.k >= 255 {
+				rep.Distinct(fmt.Sprintf("%v %d %d %d %v", c.mapParent, c.childKind, c.per, c.k, c.filler > 0))
 			}
-			// C06/C07 oracles of the codec harness on the parent's slabs (sizes vs bytes, flags, round trip);
+			rep.Event(fmt.Sprintf("inlined_containers_%s", map[bool]string{true: "le_256", false: "gt_256"}[c.k <= 256]))
+			// C06/C07 oracles of the codec harness on the parent's root slab (sizes vs bytes, flags, round trip);
 			// a slab the encoder refuses is not checked (the refusal is handled below)
-			if root, ok, _ := st.Retrieve(parent.SlabID()); ok {
+			if root, ok, _ := st.Retrieve(rootID); ok {
 				if _, encErr := atree.EncodeSlab(root, encMode); encErr == nil {
-					ck := &codecChecker{rep: rep, tr: nil, hist: h, tag: tag, T: T, compact: compact, seen: map[uint64]bool{}, maxTr: 0}
+					// (a codec violation does not suppress the reopen oracles below: both views are reported)
+					ck := &codecChecker{rep: rep, tr: nil, hist: h, tag: tag, T: c.T, compact: compact, seen: map[uint64]bool{}, maxTr: 0}
 					ck.checkSlab(root, "parent root")
-					if len(rep.Violations) > 0 {
-						failed = true
-					}
 				}
 			}
 			before := len(base.Segs)
@@ -99,54 +341,73 @@ func cmdManyInlined(a Args) {
 				if len(base.Segs) != before {
 					rep.Event("partial_write_before_refusal")
 				}
+				if c.k <= 256 {
+					fail(pid+": commit refuses a container whose slab holds at most 256 inlined containers (the one-byte extra-data index addresses 256): the history cannot be made durable", err.Error())
+				}
 				return
 			}
 			rep.Event("commit_accepted")
-			st2 := newStorage(base.Clone())
-			if compact {
-				st2 = codecStorage(base.Clone())
+			if len(base.Segs) == 1 {
+				rep.Event("ledger_holds_one_register")
+			} else if single {
+				rep.Event("some_child_was_not_inlined")
 			}
-			p2, err := atree.NewArrayWithRootID(st2, parent.SlabID())
-			if err != nil {
-				fail("C03: parent cannot be reopened", err.Error())
+			st2 := mk(base.Clone())
+			var getSlot func(i int) (atree.Value, error)
+			var count uint64
+			if c.mapParent {
+				p2, err := atree.NewMapWithRootID(st2, rootID, atree.NewDefaultDigesterBuilder())
+				if err != nil {
+					fail("C02: map with inlined child containers cannot be reopened from the ledger after a successful commit", err.Error())
+					return
+				}
+				count = p2.Count()
+				getSlot = func(i int) (atree.Value, error) {
+					return p2.Get(testutils.CompareValue, testutils.GetHashInput, testutils.Uint64Value(uint64(i)))
+				}
+				for _, absent := range []uint64{uint64(len(slots)), uint64(len(slots) + 5), 1 << 40} {
+					has, err := p2.Has(testutils.CompareValue, testutils.GetHashInput, testutils.Uint64Value(absent))
+					if err != nil || has {
+						fail("C02: reopened map reports an absent key as present (or fails)", fmt.Sprintf("key %d has=%v err=%v", absent, has, err))
+						return
+					}
+				}
+			} else {
+				p2, err := atree.NewArrayWithRootID(st2, rootID)
+				if err != nil {
+					fail("C03: array with inlined child containers cannot be reopened from the ledger after a successful commit", err.Error())
+					return
+				}
+				count = p2.Count()
+				getSlot = func(i int) (atree.Value, error) { return p2.Get(uint64(i)) }
+			}
+			if count != uint64(len(slots)) {
+				fail(pid+": reopened parent has a different count", fmt.Sprintf("%d, want %d", count, len(slots)))
 				return
 			}
-			if p2.Count() != uint64(k) {
-				fail("C03: reopened parent has a different count", fmt.Sprint(p2.Count()))
-				return
-			}
-			for i := 0; i < k && !failed; i++ {
-				v, err := p2.Get(uint64(i))
+			for i, s := range slots {
+				v, err := getSlot(i)
 				if err != nil {
-					fail("C03: child cannot be read after reload", err.Error())
+					fail(pid+": element of the parent cannot be read after commit and reload", fmt.Sprintf("slot %d: %v", i, err))
 					return
 				}
-				cm, ok := v.(*atree.OrderedMap)
-				if !ok {
-					fail("C07: reloaded child is not a map", fmt.Sprintf("%T", v))
+				if s.kid == nil {
+					if x, ok := v.(testutils.Uint64Value); !ok || uint64(x) != s.plain {
+						fail(pid+": plain element of the parent changed after commit and reload", fmt.Sprintf("slot %d: %v want %d", i, v, s.plain))
+						return
+					}
+					continue
+				}
+				if d := miCheck(v, s.kid); d != "" {
+					fail("C07: inlined child differs after commit and reload", fmt.Sprintf("slot %d: %s", i, d))
 					return
-				}
-				var key atree.Value = testutils.Uint64Value(uint64(i))
-				if compact {
-					key = testutils.NewStringValue(fmt.Sprintf("f%d", i))
-				}
-				got, err := cm.Get(testutils.CompareValue, testutils.GetHashInput, key)
-				if err != nil {
-					fail("C07: entry of an inlined child is lost after commit and reload (its extra-data index was written wrongly)", fmt.Sprintf("child %d: %v", i, err))
-					return
-				}
-				if uint64(got.(testutils.Uint64Value)) != uint64(10000+i) {
-					fail("C07: entry of an inlined child changed after commit and reload", fmt.Sprintf("child %d", i))
-				}
-				if tiv, ok := cm.Type().(testutils.SimpleTypeInfo); !compact && (!ok || tiv.Value() != uint64(50+i%3)) {
-					fail("C07: type of an inlined child changed after commit and reload", fmt.Sprintf("child %d", i))
 				}
 			}
 		}()
 		rep.Histories++
-		rep.Steps += k
-		if h < 2 {
-			rep.Sample(fmt.Sprintf("case %s: T=%d children=%d", tag, T, k))
+		rep.Steps += c.k
+		if h < 3 {
+			rep.Sample(fmt.Sprintf("case %s: %s", tag, c))
 		}
 	}
 	rep.Write(a.Out + "/report.json")
